@@ -5,6 +5,7 @@
 From Coq Require Import ZArith List Bool.
 Require Import Model.Base Model.Ir Model.Propagate Gen.DegreeTable Spec.PolyDeg.
 Require Import Model.Justify Model.DegJustify Spec.DegSem Proofs.PolyDegProofs Proofs.DegreeProofs Proofs.DegGraphProofs Proofs.ValueProofs.
+Require Model.Lift Spec.CfgSpec Spec.CtlSpec Proofs.CtlStructure.
 Import ListNotations.
 Local Open Scope Z_scope.
 
@@ -113,6 +114,27 @@ Theorem C07_selection_sound :
 Proof. exact select_general. Qed.
 Print Assumptions C07_selection_sound.
 
+(* CONTROL DEPENDENCE IN LIFTED GRAPHS: what Spec.DegSem.decides assumes of the graphs
+   lifting produces, stated on paths only (Spec.CtlSpec; no immediate-dominator table) and
+   proved for the skeleton graphs of Model.Lift.lift by induction over the statement
+   (Proofs.CtlStructure).  A block b whose decision can change the edge along which a join
+   j is entered - [can_split]: two walks from b to j that have nothing in common but their
+   ends; Proofs.CtlStructure.split_exists shows for every graph that any two walks from a
+   common block that enter j along different edges have such a block in common - lies on
+   the dominator-tree path from some predecessor p of j up to the immediate dominator d of
+   j, i.e. among the blocks Spec.DegSem.above walks - [on_dom_chain]: b dominates p, d is
+   the closest strict dominator of j and dominates b ([dominates] is reflexive, so b = p
+   and b = d are included).  [is_join] (at least two predecessors) follows from [can_split]
+   and is kept for the correspondence with Spec.DegSem.pick_ok.  The weaker reading of
+   can_split in which the two walks may meet is NOT what decides the edge and the
+   implication is false for it (Proofs.CtlStructure.meeting_variant_refuted:
+   `if (a) {x}  if (c) {y}  z`, block 0 and the join 4 of the second `if`). *)
+Theorem C07_lifted_graphs_control_dependence :
+  forall (body : Lift.sk) (g : list Lift.block), Lift.lift body = Base.Ok g ->
+  forall b j : nat, CtlSpec.can_split g b j -> CtlSpec.is_join g j -> CtlSpec.on_dom_chain g j b.
+Proof. exact CtlStructure.lifted_control_dependence. Qed.
+Print Assumptions C07_lifted_graphs_control_dependence.
+
 (* non-vacuity for arrays: t.0 = [1, 2]; b <-- t.0[IDX] with a the signal. Reading at
    the literal index 0 may carry the array's constant range; reading at the signal a
    may not (it is what the repaired defect 920512c claimed), but may carry an upper end
@@ -186,3 +208,19 @@ Proof.
   right. left. split; [reflexivity|]. split; [exists TSigIn; split; [reflexivity|discriminate]|].
   intros i rho delta t. cbn [Dn]. unfold Dd. replace (_ - _) with 0 by ring. reflexivity.
 Qed.
+
+(* non-vacuity for the control dependence of lifted graphs:
+     if (c1) { if (c2) { x } else { y } } else { z }  w
+   lifts to  0 -> 1,4   1 -> 2,3   2 -> 5   3 -> 5   4 -> 5  (Proofs.CtlStructure.ex_nest_g).
+   The inner `if` is the last statement of the outer branch, so the outer join (block 5)
+   receives the inner branches 2 and 3 as predecessors directly: the inner branching block
+   1 can change the edge along which 5 is entered, and it is on the dominator chain of 5
+   (it dominates the predecessor 2; the immediate dominator of 5 is block 0). *)
+Example C07_nested_if_inner_branch_decides_outer_join :
+  Lift.lift (Lift.SBlock [Lift.SIf 1 (Lift.SBlock [Lift.SIf 2 (Lift.SBlock [Lift.SLeaf 3 false])
+                                                             (Some (Lift.SBlock [Lift.SLeaf 4 false]))])
+                                     (Some (Lift.SBlock [Lift.SLeaf 5 false]));
+                          Lift.SLeaf 6 false]) = Base.Ok CtlStructure.ex_nest_g /\
+  CtlSpec.can_split CtlStructure.ex_nest_g 1 5 /\ CtlSpec.is_join CtlStructure.ex_nest_g 5 /\
+  CtlSpec.on_dom_chain CtlStructure.ex_nest_g 5 1.
+Proof. exact CtlStructure.nested_if_example. Qed.
